@@ -27,6 +27,8 @@ var active atomic.Pointer[Sim]
 
 var realBase = time.Now()
 
+var inactiveRot atomic.Uint64
+
 // Active reports whether a simulation is running in this process.
 func Active() bool { return active.Load() != nil }
 
@@ -90,6 +92,7 @@ type task struct {
 	// stall fault: not offered to the chooser before this simulated instant
 	stalledUntil int64
 	perm         []int
+	selCount     uint64
 	prio         int
 	explicit     bool
 	steps        uint64
@@ -637,7 +640,11 @@ func SelectNext(site string, n int, k int) int {
 	}
 	s := active.Load()
 	if s == nil {
-		return k
+		// no simulation: poll fairly (Go's select is fair; a fixed source order could starve a case for ever)
+		if k == 0 {
+			inactiveRot.Add(1)
+		}
+		return (k + int(inactiveRot.Load()%uint64(n))) % n
 	}
 	g := goid()
 	if g == s.rootGoid {
@@ -650,6 +657,7 @@ func SelectNext(site string, n int, k int) int {
 		return k
 	}
 	if k == 0 {
+		t.selCount++
 		f := 1
 		for i := 2; i <= n && i <= 6; i++ {
 			f *= i
@@ -689,6 +697,12 @@ func SelectNext(site string, n int, k int) int {
 			}
 			perm[i] = avail[d]
 			avail = append(avail[:d:d], avail[d+1:]...)
+		}
+		// the default order (v == 0) rotates with every execution, so that no ready case is starved:
+		// Go promises a uniformly random choice, of which a fixed order would be an unfair refinement
+		rot := int(t.selCount % uint64(n))
+		for i := range perm {
+			perm[i] = (perm[i] + rot) % n
 		}
 		t.perm = perm
 	}
